@@ -7,7 +7,7 @@
 EXTENDS Sequences, Json, IOUtils, SequencesExt, FiniteSets, TLC
 
 InitCalls == {"holidays_fr", "holidays_us", "country_from_coords", "tz_from_coords", "ctx_from_coords", "easter"}
-Calls == InitCalls \cup {"plain_shared", "plain_clone", "normalize", "clone_ctx_switch", "clone_locale_switch", "interleave_exprs"}
+Calls == InitCalls \cup {"plain_shared", "plain_clone", "normalize", "clone_ctx_switch", "clone_locale_switch", "interleave_exprs", "shared_walk"}
 Prog2 == {<<a, b>> : a \in InitCalls, b \in Calls}
 Two   == {<<p, q>> : p \in Prog2, q \in Prog2}
 Three == {<<<<a>>, <<b>>, <<c>>>> : a \in InitCalls, b \in InitCalls, c \in InitCalls}
@@ -16,6 +16,9 @@ Wide  == {<<<<"ctx_from_coords", "plain_shared">>, <<"ctx_from_coords", "plain_c
             <<"plain_shared", "holidays_fr">>, <<"plain_clone", "tz_from_coords">>>>}
 \* many threads making the same first use at once (a table published before it is complete shows here)
 Crowd == {[i \in 1..12 |-> <<c>>] : c \in InitCalls} \cup {[i \in 1..12 |-> <<c, "clone_ctx_switch">>] : c \in {"holidays_us", "holidays_fr"}}
+         \* twelve threads walking clones of the one shared value, alone and after a first use of a lazily built table
+         \cup {[i \in 1..12 |-> <<"shared_walk">>], [i \in 1..12 |-> <<"easter", "shared_walk", "clone_locale_switch">>],
+               [i \in 1..8 |-> <<"shared_walk", "plain_shared">>]}
 ASSUME ndJsonSerialize(IOEnv.OUT, SetToSeq(Two \cup Three \cup Wide \cup Crowd))
 ASSUME PrintT(<<"COUNTS", Cardinality(Two), Cardinality(Three), Cardinality(Wide), Cardinality(Crowd)>>)
 =============================================================================
